@@ -83,6 +83,8 @@ struct List
     static constexpr bool ALL_COPYABLE = (std::is_copy_constructible_v<typename Ds::type> && ...);
     static constexpr bool ALL_TRIVIAL = (std::is_trivially_copyable_v<typename Ds::type> && ...);
     static constexpr bool HAS_ALIGN = ((Ds::align_as != 0) || ...);
+    // value types whose object representation contains absolute addresses (std::string points into itself)
+    static constexpr bool HAS_ADDRESS_BYTES = (std::is_same_v<typename Ds::type, std::string> || ...);
 
     static constexpr bool is_count(std::size_t i) { return i + 1 < N && kinds[i + 1] == V; }
     static constexpr std::size_t fixed_index(std::size_t i)
